@@ -5,6 +5,7 @@ import (
 	"io"
 	"runtime"
 	"sync"
+	"sync/atomic"
 	"time"
 
 	"github.com/mdzio/go-mqtt/service"
@@ -56,6 +57,10 @@ var errStop = errors.New("harness: stop")
 
 var yieldTable sync.Map // obj -> func(point string)
 
+// yieldAnyBuf handles buffer points of rings the scenario cannot name (the
+// rings inside a connection's service).
+var yieldAnyBuf atomic.Pointer[func(point string, obj interface{})]
+
 func yieldDispatch(point string, obj interface{}) {
 	if raceEnabled {
 		raceYield(point)
@@ -64,6 +69,8 @@ func yieldDispatch(point string, obj interface{}) {
 	if len(point) > 4 && point[:4] == "buf." {
 		if f, ok := yieldTable.Load(obj); ok {
 			f.(func(string))(point)
+		} else if g := yieldAnyBuf.Load(); g != nil {
+			(*g)(point, obj)
 		}
 		return
 	}
